@@ -1,4 +1,152 @@
-import ShootVerif.Spec.Ctor
+import ShootVerif.Proofs.CtorMain
+/-!
+C02 — `NewT(args…)` stores every constructor parameter in exactly the field it is named after
+(including fields promoted from embedded structs, built as nested literals, pointer embeds
+allocated); `def=` fields that are not parameters hold the default, every other field is zero;
+parameters follow declaration order depth-first, restricted to `shoot: new`-marked fields when
+any field is marked, never `_`-prefixed / `new:"-"` / shadowed promoted fields.
+
+`gen` is the model of fields.go + new.go (flatten with sequential shadow marking, name-keyed
+nameMap, newParamsList, newBodyRec); `Gen.valueAt` is the meaning of the emitted keyed literal;
+`specLeaf`/`specParams` are the property. All theorems hold for every struct tree (any number
+of fields, any embedding depth) in the region `WF`.
+-/
 namespace ShootVerif.Ctor
-theorem C02_placeholder : True := trivial
+
+/-- the generator's shadow flags do not depend on the order in which fields are collected:
+    an entry is shadowed iff an entry of the same name sits at a smaller depth -/
+theorem C02_shadow_closed_form (t : Tree) :
+    flatten t = walkTop (shadowOf (walkTop noShadow t)) t := flatten_closed t
+
+/-- `newBodyRec` over the flat list re-parses it into one nested `(&)E{…}` literal per embed -/
+theorem C02_body_reparse (t : Tree) :
+    (gen t).body = lit (nameMap (hasNewTop t) (flatten t)) (genShadow t) true false 0 t := by
+  simp only [gen, Bool.false_or]
+  have h := bodyRec_walkTop (nameMap (hasNewTop t) (flatten t)) (genShadow t) t
+  have e : walkTop (genShadow t) t = flatten t := (flatten_closed t).symm
+  rw [e] at h
+  exact h
+
+/-- parameters = the eligible leaves, in depth-first declaration order -/
+theorem C02_param_order (t : Tree) (hwf : WF t = true) :
+    (gen t).params.map Prod.fst = (specParams t).map (fun l => Transfer.camelS l.info.name) := by
+  simp only [WF, wfParamNames, Bool.and_eq_true, Bool.not_eq_true', decide_eq_true_eq] at hwf
+  exact paramNames_spec t hwf.1.2 hwf.1.1.2.1
+
+/-- a leaf is a parameter iff it is not hidden by Go's selector rule, not skipped, and marked when
+    any field of the type is marked (definition of `eligible`, restated as the membership test) -/
+theorem C02_eligible_iff (t : Tree) (l : Leaf) (hl : l ∈ leavesTop t) :
+    l ∈ specParams t ↔
+      (goShadowed t l.depth l.info.name = false ∧ l.info.skip = false ∧ (hasNewTop t = true → l.marked = true)) := by
+  simp only [specParams, List.mem_filter, hl, true_and, eligible, Bool.and_eq_true, Bool.not_eq_true',
+    Bool.or_eq_true]
+  constructor
+  · rintro ⟨⟨h1, h2⟩, h3⟩
+    refine ⟨h1, h2, fun hn => ?_⟩
+    rcases h3 with h3 | h3
+    · rw [hn] at h3; cases h3
+    · exact h3
+  · rintro ⟨h1, h2, h3⟩
+    refine ⟨⟨h1, h2⟩, ?_⟩
+    cases hn : hasNewTop t
+    · left; rfl
+    · right; exact h3 hn
+
+/-- HEADLINE: after `NewT(arg0, arg1, …)`, every leaf of the struct — read at its explicit path —
+    holds exactly what the property prescribes: its own argument if it is the i-th eligible leaf,
+    its `def=` value if it has one and is not a parameter, otherwise the zero value -/
+theorem C02_value_at_path (t : Tree) (hwf : WF t = true) :
+    ∀ l ∈ leavesTop t, (gen t).valueAt l.path l.info.name = specLeaf t l := by
+  intro l hl
+  have hwf' := hwf
+  simp only [WF, wfParamNames, Bool.and_eq_true, Bool.not_eq_true', decide_eq_true_eq] at hwf'
+  obtain ⟨⟨⟨hlev, hnd, _⟩, hts⟩, hsd⟩ := hwf'
+  have hw : WFLevels t := (wfLevels_iff t).mp hlev
+  obtain ⟨π, hp, hat⟩ := leafAt_of_mem t true [] false 0 hw l hl
+  simp only [List.nil_append] at hp
+  subst hp
+  unfold Gen.valueAt
+  rw [C02_body_reparse, at_lit _ _ l.path true [] false 0 t hw, hat, Option.bind_some, C02_param_order t hwf]
+  unfold leafExpr specLeaf
+  by_cases hs : l.info.skip
+  · -- skipped: no key; the spec has no default for it (region excludes skip ∧ def)
+    have hnd' : ¬ (l.top = true ∧ l.info.defv ≠ "") := by
+      intro hc
+      unfold skipWithDef at hsd
+      rw [List.any_eq_false] at hsd
+      exact hsd l hl (by simp [hc.1, hs, hc.2])
+    simp [hs, eligible, hnd']
+  · simp only [hs, Bool.false_eq_true, ↓reduceIte]
+    have hag := shadow_agrees t hts l hl
+    cases hsh : genShadow t l.depth l.info.name
+    · -- visible leaf
+      have hg : goShadowed t l.depth l.info.name = false := by
+        unfold genShadow at hsh; rw [← hag, hsh]
+      have hnm := nameMap_of_leaf t (hasNewTop t) hts hnd l hl (by simpa using hs) hsh
+      cases hok : (!hasNewTop t || l.marked)
+      · -- not a parameter: default or zero
+        rw [hok] at hnm
+        have hel : eligible t l = false := by simp [eligible, hg, hs, hok]
+        simp only [entryExpr, mkField, hnm, hel, Bool.false_eq_true, ↓reduceIte]
+        by_cases htop : l.top <;> by_cases hd : l.info.defv = "" <;> simp [htop, hd, evalExpr]
+      · -- parameter: its own argument
+        rw [hok] at hnm
+        have hel : eligible t l = true := by simp [eligible, hg, hs, hok]
+        have hmem : l ∈ specParams t := by simp [specParams, hl, hel]
+        have hsub : ∀ x ∈ specParams t, x ∈ visibleLeaves t := by
+          intro x hx
+          simp only [specParams, List.mem_filter, eligible, Bool.and_eq_true, Bool.not_eq_true'] at hx
+          simp [visibleLeaves, hx.1, hx.2.1.1]
+        have hinj : ∀ x ∈ specParams t, Transfer.camelS x.info.name = Transfer.camelS l.info.name → x = l :=
+          fun x hx e => eq_of_nodup_map hnd x (hsub x hx) l (hsub l hmem) e
+        have hinjk : ∀ x ∈ specParams t, Leaf.key x = Leaf.key l → x = l := by
+          intro x hx e
+          apply hinj x hx
+          have : x.info.name = l.info.name := by
+            have := congrArg Prod.snd e; simpa [Leaf.key] using this
+          rw [this]
+        obtain ⟨i, hi⟩ := idx_isSome_of_mem (specParams t) l hmem
+        have h1 := idx_map_inj (g := fun x : Leaf => Transfer.camelS x.info.name) (specParams t) l hmem hinj
+        have h2 := idx_map_inj (g := Leaf.key) (specParams t) l hmem hinjk
+        simp only [entryExpr, mkField, hnm, hsh, Bool.not_false, ↓reduceIte, Option.map_some, evalExpr, hel]
+        rw [h1, h2, hi]
+    · -- hidden by a shallower member: default or zero
+      have hg : goShadowed t l.depth l.info.name = true := by
+        unfold genShadow at hsh; rw [← hag, hsh]
+      have hel : eligible t l = false := by simp [eligible, hg]
+      simp only [hel, Bool.false_eq_true, ↓reduceIte]
+      unfold genShadow at hsh
+      cases hnm : nameMap (hasNewTop t) (flatten t) l.info.name <;>
+        by_cases htop : l.top <;> by_cases hd : l.info.defv = "" <;>
+        simp [entryExpr, mkField, hnm, hsh, htop, hd, evalExpr, genShadow]
+
+/-- every embedded struct on an embed path of the type is present in the literal, so embedded
+    pointers are allocated -/
+theorem C02_ptr_embeds_allocated (t : Tree) (hwf : WF t = true) (π : List String)
+    (h : t.hasEmbedPath π = true) : (gen t).body.hasSub π = true := by
+  simp only [WF, Bool.and_eq_true] at hwf
+  have hw : WFLevels t := (wfLevels_iff t).mp hwf.1.1.1
+  rw [C02_body_reparse, hasSub_lit _ _ π true false 0 t hw, h]
+
+/-- finding region F_topSkipShadows (recorded in known_findings.json): a `new:"-"` top-level field
+    hides a promoted field of the same name for Go, but the generator drops the skipped field before
+    shadow detection, so the hidden promoted field becomes a constructor parameter -/
+theorem C02_F_topSkipShadows_witness :
+    let t : Tree := .field { name := "name", skip := true }
+      (.embed "Core" "Core" true false (.field { name := "name" } .nil) .nil)
+    region t = "F_topSkipShadows" ∧ (gen t).params.length = 1 ∧ (specParams t).length = 0 := by
+  decide
+
+/-! non-vacuity: a struct with a shadowed promoted field, a pointer embed, a `new` mark, a default
+    and a skipped field is in `WF`, and the constructor takes exactly the marked leaves -/
+example :
+    let t : Tree := .field { name := "id", newMark := true }
+      (.embed "Base" "Base" true true
+        (.field { name := "id" } (.field { name := "age" } .nil))
+        (.field { name := "note", defv := "7" } (.field { name := "_x", skip := true } .nil)))
+    WF t = true ∧ (gen t).params.map Prod.fst = ["id", "age"] ∧
+      (gen t).valueAt ["Base"] "age" = some (.arg 1) ∧ (gen t).valueAt ["Base"] "id" = none ∧
+      (gen t).valueAt [] "note" = some (.defx "7") := by
+  decide
+
 end ShootVerif.Ctor
